@@ -376,3 +376,17 @@ Print Assumptions find_groups_connected.
 Example find_groups_connected_nonvacuous :
   find_groups_gen false 4 [0;1;5;5; 1;0;5;5; 5;5;0;1; 5;5;1;0]%N = Some (2%nat, [1;1;2;2]%nat).
 Proof. vm_compute. reflexivity. Qed.
+
+(* the public hwloc_topology_dup (internal dup + refresh of the copy): every
+   structure of the copy has valid cached objects, keeps its id / name / kind, and
+   is what dist_follow_objects says of the duplicated structure on the copy's objects *)
+Theorem dist_topology_dup :
+  forall t tobjs levels,
+  let t' := topology_dup t tobjs levels in
+  t_dists t' = flat_map (fun d => match refresh_one tobjs (dup_one d) with Some d' => [d'] | None => [] end) (t_dists t)
+  /\ Forall (fun d => d_valid d = true) (t_dists t') /\ t_next_id t' = t_next_id t.
+Proof.
+  intros. unfold t', topology_dup, refresh. simpl. split; [|split; [apply refresh_all_valid|reflexivity]].
+  rewrite refresh_list_spec. rewrite flat_map_concat_map, map_map, <- flat_map_concat_map. reflexivity.
+Qed.
+Print Assumptions dist_topology_dup.
